@@ -11,6 +11,7 @@ type VJSON struct {
 	ToJSON   func() ([]byte, error)
 	FromJSON func([]byte) error
 	Marshal  func() ([]byte, error) // json.Marshal(container)
+	Unmarshal func([]byte) error    // json.Unmarshal(data, container)
 	Keys     func() []int           // key-value containers
 	Get      func(k int) (int, bool) // key-value containers: values are read per key (Keys()/Values() of hash maps are not aligned)
 	Object   bool                   // serializes as a JSON object
@@ -117,6 +118,15 @@ func VJSONRound(g VJSON) {
 			f2k, f2x := vSeq(f2)
 			vSameContent(g, f2k, f2x, ks, xs, "C11:marshal-differs-from-tojson")
 		}
+	}
+	// json.Unmarshal(data, container) is the same as FromJSON
+	f3 := g.Fresh()
+	err = f3.Unmarshal(data)
+	v.Assert(err == nil, "C11:json-unmarshal-rejects-own-output")
+	if err == nil {
+		f3.Inv()
+		f3k, f3x := vSeq(f3)
+		vSameContent(g, f3k, f3x, ks, xs, "C11:json-unmarshal-differs-from-fromjson")
 	}
 	// same subsequent Pop/Dequeue sequence
 	if g.Drain != nil {
